@@ -599,7 +599,10 @@ pub fn parse_number<'a, const FORMAT: u128, const IS_PARTIAL: bool>(
     // Check if integer leading zeros are disabled.
     #[cfg(feature = "format")]
     if !is_prefix && format.no_float_leading_zeros() {
-        if integer_digits.len() > 1 && integer_digits.first() == Some(&b'0') {
+        // NOTE: this must count digits, and not the bytes in `integer_digits`,
+        // which may contain digit separators.
+        let mut zeros = start.clone();
+        if n_digits > 1 && zeros.integer_iter().peek() == Some(&b'0') {
             return Err(Error::InvalidLeadingZeros(start.cursor()));
         }
     }
